@@ -228,7 +228,7 @@ class World:
                             tmp_same_fs=c["tmp_same_fs"])
         self.clock = SimClock()
         self.seams = Seams()
-        self.model = Model()
+        self.model = Model(csv_numbers=(c["storage"] == "csv"))
         self.db = None
         self.handles = {}
         self.suspended = None
@@ -772,6 +772,10 @@ class World:
             return ("ret", pts if take is None else pts[:take])
         if k == "iter_suspend":
             return ("ret", mdl.points[:op.get("take", 1)])
+        if k == "iter_resume":
+            # what a suspended generator yields after other operations have
+            # used the handle is unspecified; it may also find it closed
+            return ("maybe-raises", (Exception,))
         if k == "bad_point":
             return ("raises", bad)
         if k == "reopen":
@@ -1217,7 +1221,7 @@ class World:
         if self.csv and self.mode in ("w", "a") and k != "reopen":
             pass
         rewrote = k in REWRITES and ctx["out"].kind == "ret" and \
-            ctx["out"].value not in (0, None) or k == "remove_all"
+            (ctx["out"].value not in (0, None) or k == "remove_all")
         lenient = self.csv and not self.cfg["flush_on_insert"] and \
             not rewrote and (self.pending > 0 or k in INSERTS)
         if k in INSERTS and self.csv and not self.cfg["flush_on_insert"]:
@@ -1253,6 +1257,19 @@ class World:
                 self.pending = 0
         ctx["actual"] = actual
         if d is None:
+            if self.prop == "C04" and ctx["out"].kind == "ret":
+                self.evals += 1
+                self.nontrivial.add((
+                    k, self.cfg["flush_on_insert"], self.cfg["encoding"],
+                    self.cfg["dialect"], self.cfg["locale"], self.mode,
+                    min(len(actual), 6), lenient,
+                    self.suspended is not None))
+            elif self.prop == "C05" and k in INSERTS + ("update",
+                                                        "update_all",
+                                                        "reopen"):
+                self.evals += 1
+                for p in actual[-3:]:
+                    self.nontrivial.add(_pkey(p))
             return
         owners = self.owners_state(op, d[0])
         if after_raise:
